@@ -114,3 +114,31 @@ Theorem C08_on_grid_of_decimal : forall (w : wres) (k : Z),
   cpu_is (wr_cpu_req w) k -> (0 <= k <= BND)%Z -> on_grid w.
 Proof. exact on_grid_of_decimal. Qed.
 Print Assumptions C08_on_grid_of_decimal.
+
+(* a rollback is never refused: from a valid record whose usage has an entry
+   for every core and NUMA node the workloads name (AddNode's Validate creates
+   one for every capacity core and NUMA node), once the Incr of [ws] has been
+   accepted the Decr of [ws] (RollbackAlloc, RollbackRealloc with ws = [delta])
+   is accepted by Validate and gives back the very same maps and memory; the
+   same for re-adding what a release took away *)
+From Verif Require Import Cpumem.BookRollbackProofs.
+
+Theorem C08_rollback_never_refused : forall (info info1 : node_info) (ws : list wres),
+  inv_valid (mkState info []) -> names_known (ni_usage info) ws ->
+  set_node_resource_usage info None ws true true = inr info1 ->
+  exists info2, set_node_resource_usage info1 None ws true false = inr info2 /\
+                nr_cpumap (ni_usage info2) = nr_cpumap (ni_usage info) /\
+                nr_numamem (ni_usage info2) = nr_numamem (ni_usage info) /\
+                nr_mem (ni_usage info2) = nr_mem (ni_usage info).
+Proof. exact rollback_never_refused. Qed.
+Print Assumptions C08_rollback_never_refused.
+
+Theorem C08_readd_never_refused : forall (info info1 : node_info) (ws : list wres),
+  inv_valid (mkState info []) -> names_known (ni_usage info) ws ->
+  set_node_resource_usage info None ws true false = inr info1 ->
+  exists info2, set_node_resource_usage info1 None ws true true = inr info2 /\
+                nr_cpumap (ni_usage info2) = nr_cpumap (ni_usage info) /\
+                nr_numamem (ni_usage info2) = nr_numamem (ni_usage info) /\
+                nr_mem (ni_usage info2) = nr_mem (ni_usage info).
+Proof. exact readd_never_refused. Qed.
+Print Assumptions C08_readd_never_refused.
